@@ -26,11 +26,17 @@ type Registry struct {
 	sortDecls []string          // in dependency order
 	sortSeen  map[string]bool   // by sort name
 	funs      map[string]FunDecl
-	axioms    map[string][]*Term // global axioms keyed by function symbol that triggers inclusion
+	axioms    map[string][]namedAxiom // global axioms keyed by function symbol that triggers inclusion
+}
+
+type namedAxiom struct {
+	name  string
+	t     *Term
+	order int // lemmas: 1-based declaration index; plain axioms: 0
 }
 
 func NewRegistry() *Registry {
-	r := &Registry{sortSeen: map[string]bool{}, funs: map[string]FunDecl{}, axioms: map[string][]*Term{}}
+	r := &Registry{sortSeen: map[string]bool{}, funs: map[string]FunDecl{}, axioms: map[string][]namedAxiom{}}
 	r.AddSortDecl("Str", "(define-sort Str () (Seq Int))")
 	r.AddSortDecl(SSlice, "(declare-datatypes ((Slice 0)) (((mk-slice (s.arr Int) (s.off Int) (s.len Int) (s.cap Int)))))")
 	r.AddSortDecl(SIface, "(declare-datatypes ((Iface 0)) (((mk-iface (i.tag Int) (i.val Int)))))")
@@ -73,16 +79,18 @@ func (r *Registry) Fun(name string) (FunDecl, bool) {
 }
 
 // AddAxiom registers an axiom that is included in every query mentioning function symbol fn.
-func (r *Registry) AddAxiom(fn string, ax *Term) {
+func (r *Registry) AddAxiom(fn, name string, ax *Term, order int) {
 	r.mu.Lock()
 	defer r.mu.Unlock()
-	r.axioms[fn] = append(r.axioms[fn], ax)
+	r.axioms[fn] = append(r.axioms[fn], namedAxiom{name, ax, order})
 }
 
 type Query struct {
 	Name    string
 	Asserts []*Term
 	Goal    *Term // to be proved under Asserts; nil means "check satisfiability of Asserts" (cover)
+	// MaxAxiomOrder > 0: only axioms/lemmas declared before this lemma index may be used (no circularity)
+	MaxAxiomOrder int
 }
 
 type Result struct {
@@ -112,6 +120,7 @@ func (r *Registry) Script(q *Query) string {
 	r.mu.Lock()
 	var extra []*Term
 	seenAx := map[string]bool{}
+	usedAx := map[string]bool{}
 	for changed := true; changed; {
 		changed = false
 		for fn := range apps {
@@ -120,8 +129,15 @@ func (r *Registry) Script(q *Query) string {
 			}
 			seenAx[fn] = true
 			for _, ax := range r.axioms[fn] {
-				extra = append(extra, ax)
-				ax.collect(vars, apps, map[string]bool{})
+				if q.MaxAxiomOrder < 0 || (q.MaxAxiomOrder > 0 && ax.order >= q.MaxAxiomOrder) {
+					continue
+				}
+				if usedAx[ax.name] {
+					continue
+				}
+				usedAx[ax.name] = true
+				extra = append(extra, ax.t)
+				ax.t.collect(vars, apps, map[string]bool{})
 				changed = true
 			}
 		}
